@@ -22,7 +22,7 @@ Inductive ast :=
                                            pot_complement builds for the complement of a
                                            lattice cell; it has no .inverse() *)
 
-Inductive err := EParse | EAttribute | EKey | EFuel | EAssert.
+Inductive err := EParse | EAttribute | EKey | EFuel | EAssert | EIndex | EValue.
 Inductive res (A : Type) := Ok (a : A) | Err (e : err).
 Arguments Ok {A}. Arguments Err {A}.
 
@@ -61,6 +61,9 @@ Fixpoint skip_blanks (s : string) : string :=
   | EmptyString => s
   end.
 
+Definition tail_str (s : string) : string :=
+  match s with String _ r => r | EmptyString => EmptyString end.
+
 (* longest prefix of digits: (value, number of digits, rest) *)
 Fixpoint span_digits (s : string) (acc : N) (cnt : nat) : N * nat * string :=
   match s with
@@ -80,7 +83,8 @@ Definition lex_literal (neg : bool) (s : string) : option (token * string) :=
       let z := if neg then (- Z.of_N v)%Z else Z.of_N v in
       let '(sub, rest') :=
         match rest with
-        | String "." (String d r2) => if is_digit d then (Some (digit_val d), r2) else (None, rest)
+        | String c1 (String d r2) =>
+            if Ascii.eqb c1 "." && is_digit d then (Some (digit_val d), r2) else (None, rest)
         | _ => (None, rest)
         end in
       match rest' with
@@ -100,13 +104,11 @@ Fixpoint lex (fuel : nat) (s : string) : list token :=
           else if Ascii.eqb c ")" then TRP :: lex f r
           else if Ascii.eqb c ":" then TColon :: lex f r
           else if Ascii.eqb c "#" then
-            match skip_blanks r with
-            | String "(" r2 => THashP :: lex f r2
-            | r1 => match span_digits r1 0%N 0 with
-                    | (_, O, _) => [TBad]
-                    | (n, _, r2) => THashN n :: lex f r2
-                    end
-            end
+            if starts_with_char "(" (skip_blanks r) then THashP :: lex f (tail_str (skip_blanks r))
+            else match span_digits (skip_blanks r) 0%N 0 with
+                 | (_, O, _) => [TBad]
+                 | (n, _, r2) => THashN n :: lex f r2
+                 end
           else if Ascii.eqb c "-" then
             match lex_literal true r with Some (t, r2) => t :: lex f r2 | None => [TBad] end
           else if Ascii.eqb c "+" then
@@ -235,5 +237,108 @@ Fixpoint pot_complement (fuel : nat) (cells : N -> option cell) (a : ast) : res 
                 | Ok g => inverse g
                 end
           end
+      end
+  end.
+
+(* ---- the loop of ConstructVolumeT4.construct_volume ("treat complements"):
+   every cell of the dictionary in its order, geometry replaced in place; an
+   exception aborts the conversion ---- *)
+Definition table := list (N * cell).
+
+Definition lookup (tbl : table) (n : N) : option cell :=
+  match find (fun p => N.eqb (fst p) n) tbl with Some p => Some (snd p) | None => None end.
+
+Definition update (tbl : table) (n : N) (g : ast) : table :=
+  map (fun p => if N.eqb (fst p) n then (fst p, mkCell g (c_lattice (snd p))) else p) tbl.
+
+Fixpoint eliminate_loop (fuel : nat) (order : list N) (tbl : table) : res table :=
+  match order with
+  | [] => Ok tbl
+  | n :: rest =>
+      match lookup tbl n with
+      | None => Err EKey
+      | Some c =>
+          match pot_complement fuel (lookup tbl) (c_geom c) with
+          | Err e => Err e
+          | Ok g => eliminate_loop fuel rest (update tbl n g)
+          end
+      end
+  end.
+
+Definition eliminate_all (fuel : nat) (tbl : table) : res table :=
+  eliminate_loop fuel (map fst tbl) tbl.
+
+(* ---- MIP/mip/cellcard.py split(): where the geometry of a cell card ends and
+   the options begin (cards without LIKE; material numbers written as digits).
+     re_options : leftmost ')' or blank that is followed by '*' or a letter; the
+                  options start at that letter
+     re_void    : blanks, name digits, blanks, one non-blank token, rest = geometry
+     re_nonvoid : the same with a second token (blanks, then characters other
+                  than blank and '(') before the geometry
+   The regexes are read as greedy scans (no input makes them backtrack into a
+   different split, see notes).  Result: (geometry, options). ---- *)
+Definition is_alpha (c : ascii) : bool :=
+  let n := N_of_ascii c in ((65 <=? n)%N && (n <=? 90)%N) || ((97 <=? n)%N && (n <=? 122)%N).
+Definition opt_start (c : ascii) : bool := is_alpha c || Ascii.eqb c "*".
+Definition opt_before (c : ascii) : bool := Ascii.eqb c ")" || is_blank c.
+
+Fixpoint find_options (s : string) : string * string :=
+  match s with
+  | String c rest =>
+      match rest with
+      | String d _ =>
+          if opt_before c && opt_start d then (String c "", rest)
+          else let '(a, b) := find_options rest in (String c a, b)
+      | EmptyString => (s, "")
+      end
+  | EmptyString => ("", "")
+  end.
+
+(* maximal prefix of characters satisfying p *)
+Fixpoint span_while (p : ascii -> bool) (s : string) : string * string :=
+  match s with
+  | String c r => if p c then let '(a, b) := span_while p r in (String c a, b) else ("", s)
+  | EmptyString => ("", "")
+  end.
+
+Definition nonblank (c : ascii) : bool := negb (is_blank c).
+Definition density_char (c : ascii) : bool := negb (is_blank c) && negb (Ascii.eqb c "(").
+
+Definition blank_head (s : string) : bool :=
+  match s with String c _ => is_blank c | EmptyString => false end.
+
+Fixpoint all_zero (s : string) : bool :=
+  match s with
+  | EmptyString => true
+  | String c r => Ascii.eqb c "0" && all_zero r
+  end.
+
+(* number of blank-separated fields, up to 3: txt.split(None, 2) must give 3 *)
+Fixpoint fields (n : nat) (s : string) : nat :=
+  match n with
+  | O => O
+  | S k =>
+      match skip_blanks s with
+      | EmptyString => O
+      | s' => S (fields k (snd (span_while nonblank s')))
+      end
+  end.
+
+Definition split_card (txt : string) : res (string * string) :=
+  if Nat.ltb (fields 3 txt) 3 then Err EValue else
+  let '(body, opts) := find_options txt in
+  match span_digits (skip_blanks body) 0%N 0 with
+  | (_, O, _) => Err EIndex
+  | (_, _, s1) =>
+      if negb (blank_head s1) then Err EIndex else
+      let '(mat, s2) := span_while nonblank (skip_blanks s1) in
+      match mat with
+      | EmptyString => Err EIndex
+      | _ =>
+          if negb (all_digits mat) then Err EValue            (* float(t2): digits only here *)
+          else if all_zero mat then Ok (s2, opts)
+          else if negb (blank_head s2) then Err EIndex
+          else let '(rho, s3) := span_while density_char (skip_blanks s2) in
+               match rho with EmptyString => Err EIndex | _ => Ok (s3, opts) end
       end
   end.
